@@ -86,10 +86,49 @@ class CipherScenario(Scenario):
                     "other_key": rng.random() < 0.25, "reuse": rng.random() < 0.5}
         if r > 0.93:
             return {"op": "restart"}
+        if r > 0.86:
+            bak = getattr(st, "keybak", {})
+            if bak and rng.random() < 0.6:
+                return {"op": "key_event", "what": "restore", "key": rng.choice(sorted(bak))}
+            return {"op": "key_event", "what": rng.choice(["damage", "damage", "rotate"]), "key": rng.choice(KEYPATHS), "n": rng.randrange(0, 32)}
         pt = _plaintext(rng)
         via = rng.choice(["keyfile", "keyfile", "provider", "field"])
         return {"op": "encrypt", "key": rng.choice(KEYPATHS), "method": rng.choice(["aes", "aes", "xor", "best", "best"]), "pt": pt.hex(),
                 "via": via, "as_str": rng.random() < 0.5, "warm": rng.choice([0, 0, 1, 2, 3]), "reuse": rng.random() < 0.5}
+
+    def keyfile(self, st, kpath, reuse, rec):
+        """A KeyFile object for the path: a new one, or the long-lived one of this session (what happened to it before --
+        a failed open, other keys it has seen -- must not matter)."""
+        if not reuse:
+            return KeyFile(kpath)
+        kfs = st.__dict__.setdefault("kfs", {})
+        if kpath in kfs:
+            rec.probe("keyfile-object-reused")
+        return kfs.setdefault(kpath, KeyFile(kpath))
+
+    def do_key_event(self, st, op, rec):
+        """The key file changes between operations: torn, put back, replaced by another valid key."""
+        w = st.world
+        p, what = op["key"], op["what"]
+        bak = st.__dict__.setdefault("keybak", {})
+        cur = w.peek(p)
+        if what == "restore":
+            if p not in bak:
+                rec.log("key_event", "skip")
+                return
+            w.poke(p, bak.pop(p))
+        elif cur is None:
+            rec.log("key_event", "skip")
+            return
+        elif what == "damage":
+            if len(cur) == 32:
+                bak[p] = bytes(cur)
+            w.poke(p, bytes(cur)[:op.get("n", 16) % 32])
+        else:
+            bak.pop(p, None)
+            w.poke(p, hashlib.sha256(b"rotated:%d:%d" % (w.seed, w.step)).digest())
+        rec.log("key_event", what, p)
+        rec.probe("key-file-" + what)
 
     def provider(self, st, key, method, reuse, rec):
         """A provider object for (key, method): a new one, or the long-lived one of this session ("across provider
@@ -108,6 +147,7 @@ class CipherScenario(Scenario):
         k = op["op"]
         if k == "restart":
             st.provs = {}
+            st.kfs = {}
             st.session += 1
             seams.reset_process_state()
             rec.log("restart")
@@ -117,7 +157,14 @@ class CipherScenario(Scenario):
         elif k == "decrypt":
             self.do_decrypt(st, op, rec)
         elif k == "tamper":
+            it = st.vault[op["item"] % len(st.vault)] if st.vault else None
+            cur = st.world.peek(it["kpath"]) if it else None
+            if it is None or cur is None or len(cur) != 32:
+                rec.log("tamper", "skip-key-unusable")
+                return
             self.do_tamper(st, op, rec)
+        elif k == "key_event":
+            self.do_key_event(st, op, rec)
 
     def _call(self, fn):
         try:
@@ -142,11 +189,27 @@ class CipherScenario(Scenario):
             return
         d0 = len(w.draws)
         basic = None
+        cur = w.peek(kpath)
+        if cur is not None and len(cur) != 32:
+            # the key file is torn right now: the operation must fail (C07's claim); it is still carried out, on the
+            # long-lived object too, because what such a failure leaves behind is part of later operations' history
+            if via == "keyfile":
+                kfobj = self.keyfile(st, kpath, op.get("reuse"), rec)
+
+                def attempt():
+                    with kfobj as kf:
+                        return kf.encrypt(text, method=method)
+                _, e0 = self._call(attempt)
+                rec.probe("encrypt-with-torn-key-file:" + ("raised" if e0 is not None else "returned"))
+            rec.log("encrypt", "key-file-unusable")
+            return
         if via == "keyfile":
             warm = op.get("warm", 0)
 
+            kfobj = self.keyfile(st, kpath, op.get("reuse"), rec)
+
             def run():
-                with KeyFile(kpath) as kf:
+                with kfobj as kf:
                     # the key context may stay open across several encryptions (and nested contexts); the one
                     # that is judged is the last
                     for j in range(warm):
@@ -217,14 +280,16 @@ class CipherScenario(Scenario):
         if other:
             kpath = [p for p in KEYPATHS if p != it["kpath"]][0]
         key = w.peek(kpath)
-        if key is None:
+        if key is None or len(key) != 32:
             rec.log("decrypt", "skip")
             return
         via = op["via"]
         sv = SecureValue(it["method"], it["ct"])
         if via == "keyfile":
+            kfobj = self.keyfile(st, kpath, op.get("reuse"), rec)
+
             def run():
-                with KeyFile(kpath) as kf:
+                with kfobj as kf:
                     return kf.decrypt(sv)
             out, err = self._call(run)
         elif via == "provider":
@@ -366,7 +431,7 @@ def rng_choice(n, seq):
 
 ALGS = ["md5", "sha1", "sha224", "sha256", "sha384", "sha512"]
 SECRETS = ["pw!one", "", "ünï!cöde", "x!" * 40, "a", "pass word!", "Pw!One", "\u0000nul!", "user:pass", "root:toor!", ":", "YWJj:ZGVm", "e\u0301le\u0300ve!", "\u212bngstro\u0308m!", "\u1100\u1161!pw",
-           " lead!pw", "trail!pw ", "\tt!b\n", "  "]
+           " lead!pw", "trail!pw ", "\tt!b\n", "  ", "long!" * 300, "x" * 1024 + "!tail", "y!" * 1024]
 
 
 def neighbours(p):
@@ -408,6 +473,7 @@ class ChallengeScenario(Scenario):
     def build(self, st):
         sch = cc.Schema()
         sch.other = cc.IntField(default=1)
+        sch.inc = cc.IncludeField()
         for f in st.h["fields"]:
             kw = {}
             if f["default"] == "plain":
@@ -536,7 +602,8 @@ class ChallengeScenario(Scenario):
             return {"op": "save", "fmt": rng.choice(st.h["formats"]), "file": rng.choice(["/data/ch1", "/data/ch2"])}
         if r < 0.94 and st.docs:
             return {"op": "restart_load", "doc": rng.randrange(len(st.docs))}
-        return {"op": "handwritten", "f": f["key"], "fmt": rng.choice(ops.FORMATS), "p": rng.choice([s for s in SECRETS if s])}
+        return {"op": "handwritten", "f": f["key"], "fmt": rng.choice(ops.FORMATS), "p": rng.choice([s for s in SECRETS if s]),
+                "via_include": rng.random() < 0.3}
 
     def field(self, st, key):
         return next(f for f in st.h["fields"] if f["key"] == key)
@@ -718,10 +785,20 @@ class ChallengeScenario(Scenario):
             if not ops.in_format_domain(fmt, tree):
                 rec.log("handwritten", "skip")
                 return
-            w.poke("/data/hand." + fmt, ops.write_doc(fmt, tree))
+            old_v = self.values_of(st, f)
+            if op.get("via_include") and f["where"] == "root" and old_v and type(old_v[-1]).__name__ == "DigestValue":
+                # the main document still carries the stored salt/digest pair of an earlier save; the new secret is written
+                # by hand into a file that the main document includes (included values override the including document's)
+                w.poke("/data/hand-inc." + fmt, ops.write_doc(fmt, tree))
+                stored = {"salt": base64.b64encode(old_v[-1].salt).decode(), "digest": base64.b64encode(old_v[-1].digest).decode()}
+                w.poke("/data/hand." + fmt, ops.write_doc(fmt, {f["key"]: stored, "inc": "/data/hand-inc." + fmt}))
+                rec.probe("handwritten-in-included-file")
+            else:
+                w.poke("/data/hand." + fmt, ops.write_doc(fmt, tree))
             self.new_session(st, rec)
             d0 = len(w.draws)
             _, err = self._call(lambda: st.cfg.load("/data/hand." + fmt, fmt))
+            self._call(lambda: setattr(st.cfg, "inc", None))      # the include directive is not meant to be saved with later documents
             rec.log("handwritten", fmt, f["key"], type(err).__name__ if err else "ok")
             rec.kind(fmt)
             rec.relevant += 1
